@@ -376,6 +376,22 @@ def setup(run):
                 "workload_case": run.current_case}
         cls = "mode:%s/maxlen:%s/%s" % (mode, maxlen, source_class(M, M.starts[0]))
         exp = J.expected(mode, st, length, maxlen)
+        # the matrices come back in the wrapping the representation class
+        # documents (a composite Transformation / Isometry for the projective and
+        # hyperbolic classes, a plain array for Representation) -- on every call,
+        # memo hits included (seeded change C06-r2-3)
+        try:
+            want_type = type(type(rep).array_wrap_func(np.eye(int(dim))[None]))
+        except Exception:
+            want_type = None
+        got_obj = call.result[0] if (ww and isinstance(call.result, tuple)) else call.result
+        if want_type is not None and want_type is not np.ndarray \
+                and not isinstance(got_obj, want_type):
+            acc.fail("accepted-set/result-not-wrapped/%s/memo:%s" % (type(rep).__name__, memo_kind),
+                     "automaton_accepted of a %s returned a %s, not the %s its class wraps "
+                     "results in" % (type(rep).__name__, type(got_obj).__name__, want_type.__name__),
+                     case)
+            return
         res = J.problems(call.result, ww, exp)
         if isinstance(res, tuple):
             mname, what, text, resid = res
@@ -700,6 +716,21 @@ def drive(run, rng, F, M, rep, exact, L, full, edge_words_opts=(True, False),
                                                       np.asarray(bm, dtype=float), TOL)[0]
                                 agree.require(ok, "agreement/with_words-false-vs-true/mode:%s/maxlen:%s" % (m, maxlen),
                                               "with_words=False returns different matrices from with_words=True")
+                            if nviol(run) != v0:
+                                raise Stop()
+                        if shared is not None and len(calls):
+                            # the very same call again on the now-filled memo (seeded
+                            # change C06-r2-3: a top-level memo hit that skips the
+                            # wrapping of the result); judged by the postcondition
+                            m, s, n = calls[int(order[0])]
+                            kw = {"maxlen": maxlen, "with_words": ww, "edge_words": ew,
+                                  "precomputed": shared}
+                            if m == "start":
+                                kw["start_state"] = s
+                            elif m == "end":
+                                kw["end_state"] = s
+                            lib(run, "accepted-set", "automaton_accepted",
+                                lambda: rep.automaton_accepted(F, n, **kw))
                             if nviol(run) != v0:
                                 raise Stop()
     # both start_state and end_state: documented ValueError
